@@ -117,7 +117,7 @@ class Table:
             return None
         g = tg.repo[0]
         rets = [n for n in self.ctx.types.nodes_in(g, ast.Return)]
-        if len(rets) < 2 or g.is_abstract or list(self.ctx.types.nodes_in(g, (ast.For, ast.While, ast.Try))):
+        if len(rets) < 2 or g.is_abstract or g.is_wrapped or list(self.ctx.types.nodes_in(g, (ast.For, ast.While, ast.Try))):
             return None
         env2: Dict[str, ast.expr] = {}
         for pname, arg in self.ctx.types.bind_args(g, s.value).items():
